@@ -74,3 +74,11 @@ Example C08_int_examples : Represent.int_text (-12345678901234567890)%Z = Some [
 Proof. exact IntRoundTrip.int_examples. Qed.
 
 
+(* KIND C08_null_and_bool_texts_read_back : F *)
+(* the three texts the representer model writes for None, True and False (`null`, `true`, `false`) are typed null / bool by the regenerated resolver
+   rules when written plain, and converted back to the same value (finite: the representer writes no other text for these types) *)
+Example C08_null_and_bool_texts_read_back :
+  Construct.resolve_scalar false [110; 117; 108; 108] true false = Construct.t_null /\
+  Construct.resolve_scalar false [116; 114; 117; 101] true false = Construct.t_bool /\ Construct.bool_of [116; 114; 117; 101] = Some true /\
+  Construct.resolve_scalar false [102; 97; 108; 115; 101] true false = Construct.t_bool /\ Construct.bool_of [102; 97; 108; 115; 101] = Some false.
+Proof. vm_compute. repeat split; reflexivity. Qed.
